@@ -1032,6 +1032,12 @@ def main(tier, replay=None):
     if replay:
         return do_replay(run, replay)
     proof_ok = run.proof_stage()
+    # second tie (structural): segment.py, CustomTransferMap.from_merging_elements and Element.track are re-translated from
+    # REPO's source text and proved equal to Lattice/{Track,Merge,Filter}.v / Beam/Moments.v (Gen/SegGenEquiv.v)
+    import translate_stage
+    trs = translate_stage.translator_obligation_seg(run)
+    if trs["status"] != "ok":
+        run.notes.append("translator obligation (segment): " + json.dumps(translate_stage.replay_fields_seg(trs))[:600])
     if not proof_ok:
         run.notes.append(run.proof_problem)
 
@@ -1090,6 +1096,9 @@ def main(tier, replay=None):
                                "tree": tree, "beam": beam, "except_for": ex, "observed": obs}, no_input=True)
         else:
             run.violation({"kind": "class_table", "broken": "Filter.class_has_is_active differs from the live classes", "observed": table}, no_input=True)
+    elif trs["status"] != "ok":
+        # the structural source no longer translates to the proved model; none of this run's oracles found a failing input
+        run.violation(translate_stage.replay_fields_seg(trs), no_input=True)
     elif not proof_ok:
         run.violation({"kind": "proof", "broken": run.proof_problem}, no_input=True)
     return run.finish("proof")
